@@ -73,6 +73,10 @@ fn pair_case(a: &Item, b: &Item) -> Value {
 }
 
 fn check_pair(a: &Item, b: &Item, st: &mut Stats, mode: Count) {
+    netted(st, || pair_case(a, b), 10, |st| check_pair_inner(a, b, st, mode));
+}
+
+fn check_pair_inner(a: &Item, b: &Item, st: &mut Stats, mode: Count) {
     st.eval();
     let case = || pair_case(a, b);
     let size = a.s.len() + b.s.len();
@@ -214,7 +218,7 @@ pub fn run(cfg: &Cfg) -> Stats {
     let collected = values::for_each_value(cfg, "c12", &|loc, case, _st, _mode| {
         // keep a deterministic subset: decided by the hash of the case
         let hh = hash_str(&case.to_string());
-        let keep = values::case_route(case) != "bytes" || hh % 8 == 0;
+        let keep = values::case_route(case) != "bytes" || hh % 8 == 0 || !loc.extensions.other.is_empty();
         if keep {
             let mut b = bucket.lock().unwrap();
             b.push(item(loc.clone(), case.clone()));
@@ -222,7 +226,8 @@ pub fn run(cfg: &Cfg) -> Stats {
     });
     let mut items = bucket.into_inner().unwrap();
     // deterministic order irrespective of thread scheduling
-    items.sort_by(|a, b| (a.case_h, &a.case_s).cmp(&(b.case_h, &b.case_s)));
+    // (values with an other-extension first, so that the cap below never drops them)
+    items.sort_by(|a, b| (a.loc.extensions.other.is_empty(), a.case_h, &a.case_s).cmp(&(b.loc.extensions.other.is_empty(), b.case_h, &b.case_s)));
     items.dedup_by(|a, b| a.case_s == b.case_s);
     items.truncate(cap);
     // 2. pools: sort by canonical string so that equal / near values are neighbours, then cut
@@ -256,6 +261,24 @@ pub fn run(cfg: &Cfg) -> Stats {
         .reduce(Stats::new, Stats::merge);
     total = total.merge(s);
     total.subspace(&format!("all ordered pairs inside {} pools of <= {pool} values (sorted by canonical string)", pools.len()), npairs, true);
+    // 2b. every value against the value parsed back from its own printed form: two values that
+    // print the same string by construction (whatever route produced the first one)
+    {
+        let nn = items.len() as u64;
+        let s = par_range(nn, |i, st| {
+            let a = &items[i as usize];
+            if let Ok(Ok(tw)) = guard(|| Locale::from_bytes(a.s.as_bytes())) {
+                let twin = item(tw, bytes_case(a.s.as_bytes()));
+                if twin.s == a.s {
+                    st.class("twin: value vs re-parse of its printed form");
+                    check_pair(a, &twin, st, Count::No);
+                    check_pair(&twin, a, st, Count::No);
+                }
+            }
+        });
+        total = total.merge(s);
+        total.subspace("every collected value paired with the re-parse of its printed form", nn, true);
+    }
     // 3. cross-pool pairs: a strided sample so that far-apart values meet too
     let n = items.len();
     if n > 2 {
